@@ -6,6 +6,9 @@ VARIABLE hist
 FileItems == CASE FileId = 1 -> << <<1, 0, 2, 1>>, <<1, 3, 4, 2>>, <<1, 4, 6, 3>>, <<2, 1, 2, 4>>, <<2, 2, 5, 5>> >>
                [] FileId = 2 -> << <<1, 1, 3, 1>>, <<1, 3, 3, 2>>, <<1, 5, 6, 3>> >>
                [] FileId = 3 -> << <<1, 0, 1, 1>>, <<2, 0, 1, 2>>, <<2, 1, 2, 3>>, <<3, 0, 2, 4>>, <<3, 2, 3, 5>>, <<3, 4, 5, 6>>, <<3, 5, 6, 7>> >>
+\* the zoom level of resolution 2 that the writers produce for these files (C07's mechanism), as <<chrom, start, end>>
+FileZ == LET lvl == ZoomRecsAllW(FileItems, ChromsOf(FileItems), 2) IN Map(LAMBDA r : <<r[1], r[2], r[3]>>, lvl)
+NoZ == <<>>
 Pts(c) == {0, 6} \cup UNION {{it[2], it[3]} : it \in {x \in Range(FileItems) : x[1] = c}}
 AllQ == {<<c, s, e>> \in (1..3) \X (0..6) \X (0..6) : c \in {it[1] : it \in Range(FileItems)} /\ s \in Pts(c) /\ e \in Pts(c) /\ s <= e}
 \* the reader may already be the caching reader when the history starts
@@ -16,7 +19,8 @@ MCInit == \/ (Init /\ hist = <<>>)
 MCNext == /\ steps < MaxSteps
           /\ \/ \E q \in Queries : (Interval(q) /\ hist' = Append(hist, [op |-> "interval", c |-> q[1], s |-> q[2], e |-> q[3]]))
                                 \/ (Values(q) /\ hist' = Append(hist, [op |-> "values", c |-> q[1], s |-> q[2], e |-> q[3]]))
+             \/ \E q \in Queries : (Zoom(q) /\ hist' = Append(hist, [op |-> "zoom", c |-> q[1], s |-> q[2], e |-> q[3]]))
              \/ (ToCached /\ hist' = Append(hist, [op |-> "cached", c |-> 0, s |-> 0, e |-> 0]))
              \/ (Reopen /\ hist' = Append(hist, [op |-> "reopen", c |-> 0, s |-> 0, e |-> 0]))
-Emit == steps = MaxSteps => PrintT(<<"REPLAY", ToJson([file |-> FileId, items |-> Items, bs |-> Fanout, hist |-> hist])>>)
+Emit == steps = MaxSteps => PrintT(<<"REPLAY", ToJson([file |-> FileId, items |-> Items, bs |-> Fanout, hist |-> hist, zrecs |-> ZRecs])>>)
 =============================================================================
